@@ -702,14 +702,19 @@ Push(a, e) ==
   [a EXCEPT !.cmds = addAll(@, 1)]
 
 \* the collector has taken everything that was on the ring of thread t
+\* (TLC keeps a function constructor as an unevaluated closure; one that reads the previous closure twice
+\* makes every later look-up twice as expensive: Eager turns it into an explicit function first)
+Eager(f) == IF f = EmptyFn THEN EmptyFn ELSE f
 Drain(a, e) ==
-  [a EXCEPT !.cmds = [c \in DOMAIN @ |-> [i \in DOMAIN @[c] |-> IF @[c][i].t = e.t THEN [@[c][i] EXCEPT !.got = TRUE] ELSE @[c][i]]]]
+  LET old == Eager(a.cmds)
+      mark(s) == [i \in DOMAIN s |-> IF s[i].t = e.t THEN [s[i] EXCEPT !.got = TRUE] ELSE s[i]] IN
+  [a EXCEPT !.cmds = Eager([c \in DOMAIN old |-> Eager(mark(old[c]))])]
 
 \* ... and is about to process the batch: a trace is cut when a command of it was taken while one
 \* pushed earlier on another thread is still waiting
 CutNow(cm) == {c \in DOMAIN cm : \E i, j \in DOMAIN cm[c] : i < j /\ cm[c][i].t # cm[c][j].t /\ ~cm[c][i].got /\ cm[c][j].got}
-Prune(cm) == LET f == [c \in DOMAIN cm |-> SelectSeq(cm[c], LAMBDA x : ~x.got)] IN
-             [c \in {x \in DOMAIN f : f[x] # <<>>} |-> f[c]]
+Prune(cm) == LET f == Eager([c \in DOMAIN cm |-> SelectSeq(cm[c], LAMBDA x : ~x.got)]) IN
+             Eager([c \in {x \in DOMAIN f : f[x] # <<>>} |-> f[c]])
 BeforeProcess(a, e) == [a EXCEPT !.cut = @ \cup CutNow(a.cmds), !.cmds = Prune(a.cmds)]
 
 CycEnd(a, e) ==
